@@ -99,6 +99,8 @@ func (s *Server) Run(ctx context.Context) error {
 		Addr:              s.conf.HTTP.Addr,
 		ReadHeaderTimeout: 5 * time.Second,
 		Handler:           httplog.New(s, s.log, LogTrace),
+		// "OPTIONS *" is handled like every other request (rate limit, warning headers)
+		DisableGeneralOptionsHandler: true,
 	}
 	s.httpServer = hs
 	if ctx != nil {
